@@ -422,6 +422,17 @@ CmdStore(s, P, op, F, silent, asuid) ==
   /\ Log("Store", s, <<AscSeq(P), op, AscFlags(F), silent, asuid>>, "OK")
   /\ UNCHANGED <<uidNext, used, dead, recd, sel, ro, idle, ever>>
 
+(* commands that are refused with NO in the selected state: STORE in a read-only (EXAMINE) selection, and    *)
+(* FETCH of a body part the message does not have.  Nothing changes; the handler still flushes, and that     *)
+(* flush must not release removals either.                                                                   *)
+CmdRefused(s, kind) ==
+  /\ Ready(s) /\ sel[s] # None /\ Len(snap[s]) > 0
+  /\ kind \in {"StoreRO", "FetchNoPart"}
+  /\ (kind = "StoreRO" => ro[s])
+  /\ FinishSel(s, <<>>, "noexp", <<>>, {}, FALSE)
+  /\ Log("Refused", s, <<kind>>, "NO")
+  /\ UNCHANGED <<rows, uidNext, flg, used, dead, recd, sel, ro, q, idle, ever>>
+
 -----------------------------------------------------------------------------
 (* EXPUNGE, UID EXPUNGE (P = positions addressed by the UID set)              *)
 CmdExpunge(s, P, byuid) ==
@@ -716,6 +727,8 @@ SA_Seen == {SA(o, {"Seen"}, si, FALSE) : o \in {"add", "rem"}, si \in BOOLEAN}
 SA_SeenSet == SA_Seen \cup {SA("set", {}, FALSE, FALSE), SA("set", {"Seen"}, FALSE, FALSE), SA("set", {"Deleted"}, FALSE, FALSE)}
 SA_All == {SA(o, F, si, au) : o \in {"add", "rem", "set"}, F \in {{"Seen"}, {"Deleted"}, {"Seen", "Deleted"}, {"Flagged"}}, si \in BOOLEAN, au \in BOOLEAN}
                 \cup {SA("set", {}, FALSE, FALSE)}
+SA_Small == {SA("add", {"Deleted"}, FALSE, FALSE), SA("add", {"Seen"}, FALSE, FALSE), SA("rem", {"Seen"}, TRUE, FALSE),
+             SA("set", {"Flagged"}, FALSE, TRUE), SA("set", {}, FALSE, FALSE)}
 CF_None == {{}}
 CF_Seen == {{}, {"Seen"}}
 CF_All == SUBSET SharedFlags
@@ -728,6 +741,11 @@ ScriptF13 == <<
   Sc("Select", "s1", <<"A">>), Sc("Select", "s2", <<"A">>),
   Sc("Append", "s1", <<"A", "m1", 1>>), Sc("Append", "s2", <<"A", "m2", 2>>),
   Sc("Fetch", "s2", <<>>), Sc("Deliver", "s2", <<"Exists", TRUE>>), Sc("Noop", "s2", <<>>) >>
+\* prefix: both sessions have A selected and know m1 and m2
+ScriptTwoOnA == <<
+  Sc("Select", "s1", <<"A">>), Sc("Select", "s2", <<"A">>),
+  Sc("Append", "s1", <<"A", "m1", 1>>), Sc("Deliver", "s2", <<"Exists", TRUE>>), Sc("Noop", "s2", <<>>),
+  Sc("Append", "s1", <<"A", "m2", 2>>), Sc("Deliver", "s2", <<"Exists", TRUE>>), Sc("Noop", "s2", <<>>) >>
 \* F14: s2 sets \Seen (queued to s1); s1 removes \Seen before applying it; the queued "add" lands afterwards
 ScriptF14 == <<
   Sc("Select", "s1", <<"A">>), Sc("Append", "s1", <<"A", "m1", 1>>), Sc("Select", "s2", <<"A">>),
@@ -737,30 +755,33 @@ ScriptF14 == <<
 
 -----------------------------------------------------------------------------
 (* Next-state relation: the configuration chooses the actions (Acts)          *)
+\* the scripted prefix may use any action; the free phase only those the configuration names
+On(a) == a \in Acts \/ (Script # <<>> /\ steps < Len(Script))
 Free ==
-  \/ "Select"  \in Acts /\ \E s \in Sessions, b \in Boxes : CmdSelect(s, b, FALSE)
-  \/ "Examine" \in Acts /\ \E s \in Sessions, b \in Boxes : CmdSelect(s, b, TRUE)
-  \/ "Close"   \in Acts /\ \E s \in Sessions : CmdClose(s, FALSE)
-  \/ "Unselect" \in Acts /\ \E s \in Sessions : CmdClose(s, TRUE)
-  \/ "Append"  \in Acts /\ \E s \in Sessions, b \in Boxes, m \in Msgs : CmdAppend(s, b, m)
-  \/ "Store"   \in Acts /\ \E s \in Sessions : \E P \in SUBSET (1..Len(snap[s])) : \E a \in StoreArgs :
+  \/ On("Select") /\ \E s \in Sessions, b \in Boxes : CmdSelect(s, b, FALSE)
+  \/ On("Examine") /\ \E s \in Sessions, b \in Boxes : CmdSelect(s, b, TRUE)
+  \/ On("Close") /\ \E s \in Sessions : CmdClose(s, FALSE)
+  \/ On("Unselect") /\ \E s \in Sessions : CmdClose(s, TRUE)
+  \/ On("Append") /\ \E s \in Sessions, b \in Boxes, m \in Msgs : CmdAppend(s, b, m)
+  \/ On("Store") /\ \E s \in Sessions : \E P \in SUBSET (1..Len(snap[s])) : \E a \in StoreArgs :
                               CmdStore(s, P, a.op, a.F, a.silent, a.asuid)
-  \/ "Expunge" \in Acts /\ \E s \in Sessions : CmdExpunge(s, 1..Len(snap[s]), FALSE)
-  \/ "UidExpunge" \in Acts /\ \E s \in Sessions : \E P \in SUBSET (1..Len(snap[s])) : CmdExpunge(s, P, TRUE)
-  \/ "Noop"    \in Acts /\ \E s \in Sessions : CmdNoop(s)
-  \/ "Fetch"   \in Acts /\ \E s \in Sessions : CmdFetch(s)
-  \/ "FetchBody" \in Acts /\ \E s \in Sessions : \E P \in SUBSET (1..Len(snap[s])) : CmdFetchBody(s, P)
-  \/ "Copy"    \in Acts /\ \E s \in Sessions, d \in Boxes : \E P \in SUBSET (1..Len(snap[s])) : CmdCopy(s, P, d)
-  \/ "Move"    \in Acts /\ \E s \in Sessions, d \in Boxes : \E P \in SUBSET (1..Len(snap[s])) : CmdMove(s, P, d)
-  \/ "Idle"    \in Acts /\ \E s \in Sessions : IdleBegin(s) \/ IdleDone(s)
-  \/ "Deliver" \in Acts /\ \E s \in Sessions : Deliver(s)
-  \/ "ConnSetBoxes" \in Acts /\ \E m \in Msgs : \E B \in SUBSET Boxes : ConnSetBoxes(m, B) \/ ConnSetBoxesRefused(m, B)
-  \/ "ConnSetFlags" \in Acts /\ \E m \in Msgs : \E F \in ConnFlagSets : ConnSetFlags(m, F)
-  \/ "ConnDelete" \in Acts /\ \E m \in Msgs : ConnDelete(m)
-  \/ "ConnUpdateSame" \in Acts /\ \E m \in Msgs : \E B \in SUBSET Boxes : \E F \in ConnFlagSets : ConnUpdateSame(m, B, F)
-  \/ "ConnBad" \in Acts /\ \E k \in BadKinds : ConnBad(k)
-  \/ "ConnCreateDup" \in Acts /\ \E m \in Msgs : ConnCreateDup(m)
-  \/ "ConnIDChanged" \in Acts /\ \E m \in Msgs : ConnIDChanged(m)
+  \/ On("Refused") /\ \E s \in Sessions, k \in {"StoreRO", "FetchNoPart"} : CmdRefused(s, k)
+  \/ On("Expunge") /\ \E s \in Sessions : CmdExpunge(s, 1..Len(snap[s]), FALSE)
+  \/ On("UidExpunge") /\ \E s \in Sessions : \E P \in SUBSET (1..Len(snap[s])) : CmdExpunge(s, P, TRUE)
+  \/ On("Noop") /\ \E s \in Sessions : CmdNoop(s)
+  \/ On("Fetch") /\ \E s \in Sessions : CmdFetch(s)
+  \/ On("FetchBody") /\ \E s \in Sessions : \E P \in SUBSET (1..Len(snap[s])) : CmdFetchBody(s, P)
+  \/ On("Copy") /\ \E s \in Sessions, d \in Boxes : \E P \in SUBSET (1..Len(snap[s])) : CmdCopy(s, P, d)
+  \/ On("Move") /\ \E s \in Sessions, d \in Boxes : \E P \in SUBSET (1..Len(snap[s])) : CmdMove(s, P, d)
+  \/ On("Idle") /\ \E s \in Sessions : IdleBegin(s) \/ IdleDone(s)
+  \/ On("Deliver") /\ \E s \in Sessions : Deliver(s)
+  \/ On("ConnSetBoxes") /\ \E m \in Msgs : \E B \in SUBSET Boxes : ConnSetBoxes(m, B) \/ ConnSetBoxesRefused(m, B)
+  \/ On("ConnSetFlags") /\ \E m \in Msgs : \E F \in ConnFlagSets : ConnSetFlags(m, F)
+  \/ On("ConnDelete") /\ \E m \in Msgs : ConnDelete(m)
+  \/ On("ConnUpdateSame") /\ \E m \in Msgs : \E B \in SUBSET Boxes : \E F \in ConnFlagSets : ConnUpdateSame(m, B, F)
+  \/ On("ConnBad") /\ \E k \in BadKinds : ConnBad(k)
+  \/ On("ConnCreateDup") /\ \E m \in Msgs : ConnCreateDup(m)
+  \/ On("ConnIDChanged") /\ \E m \in Msgs : ConnIDChanged(m)
 
 (* after MaxSteps free steps a simulated behaviour is driven to quiescence:    *)
 (* leave IDLE, deliver everything, then NOOP wherever responders are queued    *)
@@ -795,11 +816,28 @@ Keep == IF Record THEN hist' = Append(hist, StepRecord) ELSE hist' = hist
 Next == Free /\ Keep
 
 \* a scripted behaviour takes, at each step, the one Free step that is the scripted one
-PhaseLen == IF Script # <<>> THEN Len(Script) ELSE MaxSteps
+\* a script is a prefix; MaxSteps free steps follow it
+PhaseLen == IF Script # <<>> THEN Len(Script) + MaxSteps ELSE MaxSteps
 Scripted ==
-  Script # <<>> =>
+  (Script # <<>> /\ steps < Len(Script)) =>
      LET sc == Script[steps + 1] IN last'.act = sc.act /\ last'.s = sc.s /\ last'.args = sc.args
 SimNext == ((steps < PhaseLen /\ Free /\ Scripted) \/ (steps >= PhaseLen /\ Drain)) /\ Keep
+
+\* Bounded exhaustive behaviours: after the scripted prefix EVERY sequence of MaxSteps free steps is explored
+\* (breadth-first, hist is part of the state so every path is a state) and driven to quiescence by a
+\* deterministic drain, so that each behaviour is printed exactly once and can be replayed.
+SessSeq == SetToSeq(Sessions)
+FirstSuch(Pd(_)) == LET idx == {i \in 1..Len(SessSeq) : Pd(SessSeq[i])} IN
+                    IF idx = {} THEN None ELSE SessSeq[CHOOSE i \in idx : \A j \in idx : i <= j]
+DrainDet ==
+  LET si == FirstSuch(LAMBDA t : idle[t])
+      sd == FirstSuch(LAMBDA t : q[t] # <<>>)
+      sn == FirstSuch(LAMBDA t : sel[t] # None /\ res[t] # <<>>)
+  IN IF si # None THEN IdleDone(si)
+     ELSE IF sd # None THEN Deliver(sd)
+     ELSE IF sn # None THEN CmdNoop(sn)
+     ELSE FALSE
+AllNext == ((steps < PhaseLen /\ Free /\ Scripted) \/ (steps >= PhaseLen /\ DrainDet)) /\ Keep
 
 Spec == Init /\ [][Next]_vars
 
@@ -877,7 +915,7 @@ EverBelowNext == \A b \in Boxes : \A p \in ever[b] : p[1] < uidNext[b]
 RowsAreEver == \A b \in Boxes : \A i \in 1..Len(rows[b]) : <<rows[b][i].uid, rows[b][i].m>> \in ever[b]
 
 \* C05
-NoExpungeKinds == {"Fetch", "FetchBody", "Store", "Copy"}
+NoExpungeKinds == {"Fetch", "FetchBody", "Store", "Copy", "Refused"}
 NoExpungeDuringFetchStore ==
   [][last'.act \in NoExpungeKinds =>
        \A s \in Sessions : \A i \in 1..Len(wire'[s]) : wire'[s][i].t # "EXPUNGE"]_vars
